@@ -702,7 +702,10 @@ func (s *Service) serve(nc Conn) error {
 	err = s.subscribe(nc, inCh)
 	if err != nil {
 		s.errorf("Failed to subscribe: %s", err)
-		go s.Shutdown()
+		// Shut down before returning. Left to a goroutine of its own, the call
+		// could be delayed until the service has been served again and would
+		// then stop that run.
+		s.Shutdown()
 	} else {
 		// Send a system.reset
 		s.ResetAll()
